@@ -84,7 +84,34 @@ class Interp:
         self.clocks = []
         for c in self.prog.get('clocks', []):
             self.clocks.append(clk.TempoClock(c['tempo'], c.get('beats')))
-        self.conds = [stm.Condition() for _ in range(4)]
+        # a condition's test is a plain value or any callable (program key
+        # 'cond_kinds': bool | func | method | partial | callable)
+        import functools
+        self.flags = [False] * 4
+        flags = self.flags
+
+        class Probe:
+            def __init__(self, k):
+                self.k = k
+
+            def is_set(self):
+                return flags[self.k]
+
+            def __call__(self):
+                return flags[self.k]
+
+        def get(k):
+            return flags[k]
+        kinds = list(self.prog.get('cond_kinds', [])) + ['bool'] * 4
+        self.cond_kinds = kinds[:4]
+        self.conds = []
+        for k in range(4):
+            kind = self.cond_kinds[k]
+            test = {'bool': False, 'func': (lambda k=k: flags[k]),
+                    'method': Probe(k).is_set,
+                    'partial': functools.partial(get, k),
+                    'callable': Probe(k)}[kind]
+            self.conds.append(stm.Condition(test))
         self.flows = [stm.FlowVar() for _ in range(4)]
         self.routines = {}
         for name, r in self.prog['routines'].items():
@@ -232,7 +259,10 @@ class Interp:
         elif k == 'csignal':
             self.conds[op[1]].signal()
         elif k == 'ctest':
-            self.conds[op[1]].test = op[2]
+            if self.cond_kinds[op[1]] == 'bool':
+                self.conds[op[1]].test = op[2]
+            else:
+                self.flags[op[1]] = op[2]
         elif k == 'cunhang':
             self.conds[op[1]].unhang()
         elif k == 'fwait':
